@@ -305,7 +305,9 @@ def manual_specs() -> list[dict]:
     ]
     for levels, sprout in rows:
         for gsc in ({"kind": "MetaepochLimit", "n": 3}, {"kind": "SingularEvalLimit", "n": 60}):
-            for drive in (["steps", 5], ["run+steps", 2]):
+            for drive in (["steps", 5], ["run+steps", 2], ["rerun", 3]):
+                if drive[0] == "rerun" and gsc["kind"] != "MetaepochLimit":
+                    continue      # (with every deme stopped an evaluation-based condition can never fire again)
                 for hib in (False, True):
                     n += 1
                     out.append(dict(base, name=f"manual{n}", seed=900 + n, levels=[dict(l) for l in levels], sprout=dict(sprout), gsc=dict(gsc),
@@ -409,9 +411,25 @@ def fidelity_specs() -> list[dict]:
     return out
 
 
+def adaptive_specs() -> list[dict]:
+    """SEAWithAdaptiveMutation whose mutation strength starts far below the width of the box and grows by a large step in
+    every metaepoch without a sprout (children that never stop block re-sprouting), until mutants land several box widths
+    outside: the repair has to cope with a strength that changes during the run."""
+    out = []
+    n = 0
+    for box in ("decimal", "sym", "asym", "tiny"):
+        for child in ({"engine": "CMA", "gens": 1}, {"engine": "DE", "pop": 5, "gens": 1}):
+            n += 1
+            out.append({"name": f"adapt{n}", "seed": 1400 + n, "dim": 2 + n % 2, "box": box, "fn": ["multi", "sphere"][n % 2], "maximize": n % 3 == 0,
+                        "gsc": {"kind": "MetaepochLimit", "n": 9},
+                        "levels": [{"engine": "ADAPT", "pop": 8, "gens": 2, "mstd": 0.04, "mstep": 0.25, "k_elites": 1}, dict(child, lsc={"kind": "DontStop"})],
+                        "sprout": {"kind": "simple", "far": 0.01, "limit": 1}, "hibernation": n % 2 == 0})
+    return out
+
+
 def gen_specs(seed: int, n_random: int, tier: str = "quick") -> list[dict]:
     r = random.Random(seed)
-    specs = repo_test_specs() + sweep_specs(tier) + lifecycle_specs() + engine_specs() + init_specs() + manual_specs() + penalty_specs() + tiny_specs() + partial_specs() + fidelity_specs()
+    specs = repo_test_specs() + sweep_specs(tier) + lifecycle_specs() + engine_specs() + init_specs() + manual_specs() + penalty_specs() + tiny_specs() + partial_specs() + fidelity_specs() + adaptive_specs()
     for i in range(n_random):
         specs.append(random_spec(r, i))
     return specs
